@@ -296,7 +296,9 @@ func mathPanicTrigger(c Case, f kit.Failure) bool {
 }
 
 // flatten-blocks: M1, M2, M5, M6 on a top-level list or quote with an item/quote that is not exactly one paragraph;
-// M3 only if, in addition, a heading sits inside that container (it becomes part of the flattened paragraph).
+// M3 only if, in addition, a heading sits inside that container (it becomes part of the flattened paragraph);
+// M8 only for a list item that itself sits inside a block quote or a multi-block item of that block (it is part of
+// the flattened paragraph, so it is no list paragraph of its own).
 func kfBlocks(desc string) kit.Finding[Case] {
 	f := kf("KF-C19-flatten-blocks", desc, "M1", "M2", "M5", "M6")
 	base := f.Trigger
@@ -304,6 +306,19 @@ func kfBlocks(desc string) kit.Finding[Case] {
 		if clauseIn(fl, "M3") {
 			for _, b := range topsOf(c, fl) {
 				if shapeFlattenBlocks(b) && containsNestedHeading(b) {
+					return true
+				}
+			}
+			return false
+		}
+		if clauseIn(fl, "M8") {
+			// the list structure of an item that sits inside a flattened container (block quote, multi-block item):
+			// the failing item itself must be inside one (the judge says so in the detail), not just its top-level block
+			if !strings.Contains(fl.Detail, flatMark) {
+				return false
+			}
+			for _, b := range topsOf(c, fl) {
+				if shapeFlattenBlocks(b) {
 					return true
 				}
 			}
